@@ -216,13 +216,20 @@ static int hash_file(const char *file, EVP_MD_CTX *ctx, void *log_ref)
 
 static int hash_value(const char *value, EVP_MD_CTX *ctx)
 {
-    EVP_DigestUpdate(ctx, value, strlen(value));
+    size_t len = strlen(value);
+
+    EVP_DigestUpdate(ctx, &len, sizeof(len));
+    EVP_DigestUpdate(ctx, value, len);
 
     return 0;
 }
 
 static int hash_item(const struct item *item, EVP_MD_CTX *ctx, void *log_ref)
 {
+    /* the kind of every item and the length of by-value data are
+       part of the key: concatenations must not coincide */
+    EVP_DigestUpdate(ctx, &item->type, sizeof(item->type));
+
     switch (item->type) {
     case item_type_none:
 	return 0;
